@@ -286,6 +286,14 @@ def execute(case):
                    "rounded ranks %s exceed the true unfolding ranks %s (eps=%g, stored ranks %s)" % (R1, ub, eps, R0))
     binding = caps is not None and any(R1[k] >= caps[k] and R1[k] < R0[k] for k in range(1, d))
     if binding:
+        try:
+            yf = lib(lambda: x.round(eps))        # the same call without rmax: does it need a rank above the cap?
+            binding = any(int(yf.R[k]) > caps[k] for k in range(1, d))
+        except core.LibraryException:
+            pass
+    ck.require(all(bool(torch.isfinite(c).all()) for c in y.cores) or not all(bool(torch.isfinite(c).all()) for c in x.cores),
+               "finite", "round() returned non-finite cores for a finite operand")
+    if binding:
         ck.label("rmax_binding")
     reduced = [R1[k] < R0[k] for k in range(1, d)]
     if reduced and all(reduced):
